@@ -107,6 +107,8 @@ def refeval(d, store, funcs, log=None):
         return r
     if k == "sub":
         return refeval(d[1], store, funcs, log)[refeval(d[2], store, funcs, log)]
+    if k.startswith("attr:"):
+        return getattr(refeval(d[1], store, funcs, log), k[5:])
     if k == "call":
         args = [refeval(x, store, funcs, log) for x in d[2]]
         kw = {n: refeval(v, store, funcs, log) for n, v in (d[3] if len(d) > 3 else {}).items()}
